@@ -62,3 +62,16 @@ Print Assumptions C09_program_is_expected.
 Print Assumptions C09_safe.
 Print Assumptions C09_refuse_after_close.
 Print Assumptions C09_no_deadlock.
+
+(* stronger than the property asks: a Close call that has returned implies the context is
+   fully closed (callbacks run, Done signalled) *)
+Theorem C09_close_returns_closed : forall ks tr s ts i t,
+  run (init Gen.Lifecycle.prog ks) tr = Some (s, ts) ->
+  nth_error ts i = Some t -> tkind t = KClose -> rem t = [] -> done s = true /\ cb s = 1.
+Proof.
+  rewrite C09_program_is_expected. intros ks tr s ts i t H Hi Hk Hr.
+  pose proof (inv_reachable _ _ _ H) as I.
+  pose proof (inv_clfin _ I _ _ Hi Hk Hr) as Ho. simpl in Ho.
+  pose proof (inv_once _ I) as Hon. simpl in Hon. rewrite Ho in Hon. tauto.
+Qed.
+Print Assumptions C09_close_returns_closed.
